@@ -285,4 +285,28 @@ theorem C15_normalized_host_in_scope (a : AddrParts) (hok : a.ok) (hnip : parseI
   have hno := (not_mem_name (toLower a.host) (lower_ok a hok).2.1).1
   simp [splitHostPort_none_of_no_colon _ hno]
 
+/-- Address.VHost of a well-formed address is the text without its scheme: `name[:port]` as written. -/
+theorem C15_vhost_without_scheme (a : AddrParts) (hok : a.ok) (hnip : parseIP a.host = none) (r : Address)
+    (h : standardizeAddress (composeAddr a) = .ok r) : r.normalize.vhost = a.host ++ portPart a :=
+  vhost_compose a hok hnip r h
+
+/-- Address.Key of a well-formed address, in closed form: scheme of the table, lower-cased name, and the port if it was
+written — except that a written 80/443 without scheme is absorbed into the inferred scheme. -/
+theorem C15_key_formula (a : AddrParts) (hok : a.ok) (hnip : parseIP a.host = none) (r : Address)
+    (h : standardizeAddress (composeAddr a) = .ok r) : r.normalize.key = expectedKey a :=
+  key_compose a hok hnip r h
+
+/-- ROUND TRIP through the site key (what `normalizedKey` / `GetConfig` rely on): the key is itself a well-formed
+address; standardizeAddress + Normalize applied to it give the same scheme, host and port, and the same key again. -/
+theorem C15_key_roundtrip (a : AddrParts) (hok : a.ok) (hnip : parseIP a.host = none) (hnip' : parseIP (toLower a.host) = none)
+    (r : Address) (h : standardizeAddress (composeAddr a) = .ok r) :
+    ∃ r', standardizeAddress r.normalize.key = .ok r' ∧ r'.normalize.scheme = r.normalize.scheme ∧
+      r'.normalize.host = r.normalize.host ∧ r'.normalize.port = r.normalize.port ∧ r'.normalize.key = r.normalize.key :=
+  key_roundtrip a hok hnip hnip' r h
+
+example : expectedKey { host := b!"Example.COM", port := some b!"80" } = b!"http://example.com" ∧
+    expectedKey { scheme := b!"HTTPS", host := b!"example.com", port := some b!"8443" } = b!"https://example.com:8443" ∧
+    expectedKey { host := b!"example.com", port := some b!"2015" } = b!"example.com:2015" ∧
+    parseIP b!"Example.COM" = none ∧ parseIP b!"example.com" = none := by decide
+
 end Casket.Props.C15
